@@ -1134,3 +1134,17 @@ def long_idle_spec(idle=130):
     return {"tasks": [{"name": "T0", "work": 3.0}, {"name": "T1", "work": 2.0}, {"name": "T2", "work": 3.0}], "links": [[0, 1, "FS"], [1, 2, "FS"]],
             "teams": [{"name": "TM0", "targets": [0], "workers": [{"name": "W0", "skills": {"T0": 1.0}, "cost": 1.0}]},
                       {"name": "TM1", "targets": [1, 2], "workers": [{"name": "W1", "skills": {"T1": 1.0, "T2": 1.0}, "cost": 2.0, "absence": cal}]}], "label": "long-idle:%d" % idle}
+
+
+def big_checkpoint_spec():
+    """ten lines of four chained tasks (40 tasks, 16 work units each) worked by three pooled workers with weekly days off: a run of about 250 steps whose
+    checkpoint after 190 steps is a file of more than a mebibyte"""
+    tasks, links = [], []
+    for b in range(10):
+        for j in range(4):
+            tasks.append({"name": "B%d_%d" % (b, j), "work": 16.0})
+            if j:
+                links.append([4 * b + j - 1, 4 * b + j, "FS"])
+    full = {t["name"]: 1.0 for t in tasks}
+    ws = [{"name": "W%d" % i, "skills": dict(full), "cost": float(1 + i), "absence": [7 * w + 5 + (i % 2) for w in range(40)]} for i in range(3)]
+    return {"tasks": tasks, "links": links, "teams": [{"name": "TM0", "targets": list(range(40)), "workers": ws}], "label": "big-checkpoint"}
